@@ -300,18 +300,35 @@ BNnLongDiv(a, b, lo, hi, r) ==
              ELSE LET L == BNnLongDiv(a, b, lo, mid - 1, H.r)
                   IN  [q |-> L.q \o H.q, r |-> L.r]
 
-\* [q |-> floor(a / b), r |-> a mod b] for b # <<>>
-BNnDivMod(a, b) ==
+\* shift that brings the top limb of a multi-limb divisor to >= 2^14
+BNnNormShift(b) == IF Len(b) = 1 THEN 0 ELSE 15 - BNnLimbLen(b[Len(b)])
+
+\* [q |-> floor(a / b), r |-> a mod b] for a divisor b that is a single limb
+\* or normalised (BNnNormShift(b) = 0)
+BNnDivModN(a, b) ==
     IF BNnCmp(a, b) < 0 THEN [q |-> <<>>, r |-> a]
     ELSE IF Len(b) = 1
     THEN IF b[1] = 1 THEN [q |-> a, r |-> <<>>]
          ELSE LET res == BNnShortDiv(a, b[1], 1, Len(a), 0)
               IN  [q |-> BNnTrim(res.q), r |-> BNnFromInt(res.r)]
-    ELSE LET s == 15 - BNnLimbLen(b[Len(b)])
-             an == BNnShl(a, s)
-             bn == BNnShl(b, s)
-             res == BNnLongDiv(an, bn, 1, Len(an), <<>>)
-         IN  [q |-> BNnTrim(res.q), r |-> BNnShr(res.r, s)]
+    ELSE \* the top Len(b)-1 limbs of a are < b: start with them as remainder
+         LET k == Len(a) - Len(b) + 1
+             res == BNnLongDiv(a, b, 1, k, SubSeq(a, k + 1, Len(a)))
+         IN  [q |-> BNnTrim(res.q), r |-> res.r]
+
+\* [q |-> floor(a / b), r |-> a mod b] for b # <<>>
+BNnDivMod(a, b) ==
+    LET s == BNnNormShift(b)
+    IN  IF s = 0 THEN BNnDivModN(a, b)
+        ELSE LET res == BNnDivModN(BNnShl(a, s), BNnShl(b, s))
+             IN  [q |-> res.q, r |-> BNnShr(res.r, s)]
+
+\* the low j bits of m are all zero
+BNnLowZero(m, j) ==
+    LET q == j \div 15
+        r == j % 15
+    IN  /\ \A i \in 1..(IF q < Len(m) THEN q ELSE Len(m)) : m[i] = 0
+        /\ (r = 0 \/ q >= Len(m) \/ m[q + 1] % BNP2[r + 1] = 0)
 
 \* 5^n
 RECURSIVE BNnPow5(_)
@@ -484,35 +501,40 @@ BNIsDouble(a) ==
     \/ LET bl == BNnBitLen(a.m)
        IN  bl <= 53 /\ a.e >= -1074 /\ bl + a.e <= 1024
 
+\* Nearest finite binary64 (ties to even, BNInf(neg) on overflow) of
+\*   (-1)^neg * (m + f) * 2^e ,  m # <<>> without high zero limbs (any parity),
+\* where f = 0 if ~sticky and 0 < f < 1 if sticky.
+\* Precondition: sticky => m has at least 55 bits.
+BNRoundMagToDouble(neg, m, e, sticky) ==
+    LET top == BNnBitLen(m) + e            \* 2^(top-1) <= magnitude < 2^top
+        lsb == IF top - 53 > -1074 THEN top - 53 ELSE -1074
+    IN  IF e >= lsb                        \* exactly representable
+        THEN (IF top > 1024 THEN BNInf(neg) ELSE BNMk(neg, m, e))
+        ELSE LET k == lsb - e              \* bits to drop, k >= 1
+                 t == BNnShr(m, k)
+                 up == /\ BNnBit(m, k - 1) = 1
+                       /\ (sticky \/ BNnIsOdd(t) \/ ~BNnLowZero(m, k - 1))
+                 r == BNMk(neg, IF up THEN BNnAdd(t, <<1>>) ELSE t, lsb)
+             IN  IF r.m # <<>> /\ BNnBitLen(r.m) + r.e > 1024
+                 THEN BNInf(neg) ELSE r
+
 \* nearest finite binary64, ties to even; BNInf(neg) on overflow
 BNRoundToDouble(a) ==
-    IF a.m = <<>> THEN a
-    ELSE LET top == BNnBitLen(a.m) + a.e          \* 2^(top-1) <= |a| < 2^top
-             lsb == IF top - 53 > -1074 THEN top - 53 ELSE -1074
-         IN  IF a.e >= lsb
-             THEN (IF top > 1024 THEN BNInf(a.neg) ELSE a)
-             ELSE LET k == lsb - a.e               \* bits to drop, k >= 1
-                      t == BNnShr(a.m, k)
-                      \* M is odd, so the dropped part equals one half
-                      \* exactly when k = 1
-                      up == IF k = 1 THEN BNnIsOdd(t)
-                            ELSE BNnBit(a.m, k - 1) = 1
-                      r == BNMk(a.neg, IF up THEN BNnAdd(t, <<1>>) ELSE t, lsb)
-                  IN  IF r.m # <<>> /\ BNnBitLen(r.m) + r.e > 1024
-                      THEN BNInf(a.neg) ELSE r
+    IF a.m = <<>> THEN a ELSE BNRoundMagToDouble(a.neg, a.m, a.e, FALSE)
 
 \* correctly rounded binary64 quotient a / b (b # 0) of any two dyadic
 \* rationals; BNInf(neg) on overflow.  Long division to >= 56 quotient
-\* bits plus a sticky bit, then one rounding.
+\* bits plus a sticky flag, then one rounding.
 BNDivToDouble(a, b) ==
     IF a.m = <<>> THEN BNZero
     ELSE IF b.m = <<1>>
-    THEN BNRoundToDouble([neg |-> a.neg # b.neg, m |-> a.m, e |-> a.e - b.e])
+    THEN BNRoundMagToDouble(a.neg # b.neg, a.m, a.e - b.e, FALSE)
     ELSE LET need == 56 + BNnBitLen(b.m) - BNnBitLen(a.m)
              s == IF need > 0 THEN need ELSE 0
-             dm == BNnDivMod(BNnShl(a.m, s), b.m)
-             q2 == BNnMulAdd(dm.q, 2, IF dm.r = <<>> THEN 0 ELSE 1)
-         IN  BNRoundToDouble(BNMk(a.neg # b.neg, q2, a.e - b.e - s - 1))
+             nb == BNnNormShift(b.m)
+             dm == BNnDivModN(BNnShl(a.m, s + nb), BNnShl(b.m, nb))
+         IN  BNRoundMagToDouble(a.neg # b.neg, dm.q, a.e - b.e - s,
+                                dm.r # <<>>)
 
 BNIsRoundedQuotient(a, b, q) == BNDivToDouble(a, b) = q
 
